@@ -10,10 +10,22 @@
 (* after its peer disconnected and reconnected.  Tasks carry a ghost id     *)
 (* (the code has none: results are matched by repository and peer id).      *)
 (*                                                                         *)
+(* Connections have a direction (Link): "out" if we dialled, "in" if the    *)
+(* peer did.  The wire reports a disconnection with the link of the         *)
+(* connection that went away, and the service ignores it unless it equals   *)
+(* the link RECORDED in the session (`session.link != link`), because the   *)
+(* losing connection of a conflict is torn down too.  `wire` is what really *)
+(* exists, `link` what the session recorded, `dial` whether a dial of ours  *)
+(* is under way.                                                            *)
+(*                                                                         *)
 (* Actions = the service's entry points:                                    *)
-(*   Attempt(p) / Connect(p) / Disconnect(p) / StaleDisconnect(p)             *)
-(*                                Service::attempted / connected /            *)
-(*                                disconnected                                *)
+(*   Attempt(p)                   Service::attempted (our dial reached p)     *)
+(*   Connect(p, d)                Service::connected, d \in {"in", "out"}     *)
+(*   Disconnect(p)                the connection is lost:                     *)
+(*                                Service::disconnected(p, wire[p])            *)
+(*   StaleDisconnect(p)           Service::disconnected(p, the other link)     *)
+(*   DialFail(p)                  our dial failed:                            *)
+(*                                Service::disconnected(p, "out")              *)
 (*   FetchCmd(r, p), AnnFetch     Command::Fetch / inventory announcement     *)
 (*   TaskDone(g)                  worker result -> Wire gate -> fetched()    *)
 (*   Wake                         wake(): the idle task (dequeue_fetches), every *)
@@ -30,6 +42,13 @@
 (*                     taken for the result of a NEW fetch of the same      *)
 (*                     repository from the same (reconnected) peer p.        *)
 (*   "late-any-peer"   (original code, fixed) ... from any peer.             *)
+(*   "stale-link"      (original code, fixed) an OUTBOUND connection that   *)
+(*                     completes for an existing session leaves the          *)
+(*                     session's recorded link as it was.  After "dialled,   *)
+(*                     lost, peer came back inbound, lost, re-dialled" the   *)
+(*                     session records "in" for an outbound connection:      *)
+(*                     its loss is ignored, the session stays connected      *)
+(*                     and its fetches stay in the table for ever.           *)
 (***************************************************************************)
 EXTENDS Integers, FiniteSets, Sequences, TLC
 
@@ -52,12 +71,15 @@ VARIABLES
     tasks,      \* [1..n -> [repo, peer, st]]  st \in {"running","done"}
     live,       \* ghost: tasks the service started and that were neither completed nor abandoned
     applied,    \* ghost: last step applied result of task g to the entry of task h: <<g, h>> or <<>>
+    link,       \* [Peer -> "none" | "in" | "out"]  the link recorded in the session
+    wire,       \* [Peer -> "none" | "in" | "out"]  the connection that exists (the wire's view)
+    dial,       \* [Peer -> BOOLEAN]  a dial of ours is under way (Io::Connect, not yet resolved)
     routing,    \* SUBSET (Repo \X Peer): the routing table (who seeds what), as far as we learnt it
     syncIn,     \* wake-ups until the sync task runs again (SYNC_INTERVAL = 2 * IDLE_INTERVAL)
     hist
 
-vars == <<st, sfetch, queue, fetching, tasks, live, applied, routing, syncIn, hist>>
-view == <<st, sfetch, queue, fetching, tasks, live, applied, routing, syncIn>>
+vars == <<st, sfetch, queue, fetching, tasks, live, applied, link, wire, dial, routing, syncIn, hist>>
+view == <<st, sfetch, queue, fetching, tasks, live, applied, link, wire, dial, routing, syncIn>>
 
 conn == {p \in Peer : st[p] = "connected"}      \* connected sessions
 sessions == {p \in Peer : st[p] # "none"}       \* peers that have a session at all
@@ -70,6 +92,9 @@ Init ==
     /\ sfetch = [p \in Peer |-> {}] /\ queue = [p \in Peer |-> <<>>]
     /\ fetching = [r \in Repo |-> NoFetch] /\ tasks = <<>> /\ live = {} /\ applied = <<>> /\ hist = <<>>
     /\ routing = {} /\ syncIn = 0
+    /\ link = [p \in Peer |-> IF p \in Persistent THEN "out" ELSE "none"]
+    /\ wire = [p \in Peer |-> "none"]
+    /\ dial = [p \in Peer |-> p \in Persistent]
 
 \* MaxOps = 0: behaviours are not bounded and no history is kept (used for the liveness instance)
 Log(op) == IF MaxOps = 0 THEN UNCHANGED hist ELSE Len(hist) < MaxOps /\ hist' = Append(hist, op)
@@ -125,46 +150,72 @@ Learn(r, p) == IF SyncTask THEN routing \cup {<<r, p>>} ELSE routing
 -----------------------------------------------------------------------------
 \* Service::attempted: our dial reached the peer
 Attempt(p) ==
-    /\ st[p] = "initial"
+    /\ st[p] = "initial" /\ dial[p]
     /\ st' = [st EXCEPT ![p] = "attempted"]
     /\ applied' = <<>>
     /\ Log(<<"attempted", p>>)
-    /\ UNCHANGED <<sfetch, queue, fetching, tasks, live, routing, syncIn>>
+    /\ UNCHANGED <<sfetch, queue, fetching, tasks, live, link, wire, dial, routing, syncIn>>
 
-\* Service::connected: an inbound connection (no session, or any existing session), or our own
-\* dial completing.  to_connected() starts a fresh Connected state (empty fetching set); the
-\* session's queue survives.
-Connect(p) ==
-    /\ st[p] # "connected"
+\* Service::connected.  d = "out": our own dial completes (a session exists, Initial or Attempted);
+\* d = "in": the peer connected to us (no session, or any existing session -- also one that is
+\* waiting to be re-dialled, or one that is still in the Connected state).  to_connected() starts a fresh Connected state (empty fetching set);
+\* the session's queue survives.  The inbound branch records the link; the outbound branch relies
+\* on the session having been created by our dial -- which is not true for a session that was taken
+\* over by an inbound connection in between (deviation "stale-link").
+Connect(p, d) ==
+    /\ wire[p] = "none"
+    /\ d = "out" => (dial[p] /\ st[p] \in {"initial", "attempted"})
     /\ st' = [st EXCEPT ![p] = "connected"]
     /\ sfetch' = [sfetch EXCEPT ![p] = {}]
+    /\ wire' = [wire EXCEPT ![p] = d]
+    /\ link' = [link EXCEPT ![p] = IF d = "out" /\ "stale-link" \in Dev THEN @ ELSE d]
+    /\ dial' = [dial EXCEPT ![p] = IF d = "out" THEN FALSE ELSE @]
     /\ applied' = <<>>
-    /\ Log(<<"connect", p>>)
+    /\ Log(<<"connect", p, d>>)
     /\ UNCHANGED <<queue, fetching, tasks, live, routing, syncIn>>
 
-\* disconnected(): fetching.retain(from # p); a persistent peer's session is kept in the
-\* Disconnected state (with its queue), any other session is dropped; the worker's tasks for p
-\* are not cancelled by the service; then dequeue_fetches.
-Disconnect(p) ==
-    /\ st[p] = "connected"
-    /\ st' = [st EXCEPT ![p] = IF p \in Persistent THEN "disconnected" ELSE "none"]
-    /\ applied' = <<>>
-    /\ \E order \in Perms(conn \ {p}) :
-         LET s0 == [St EXCEPT !.fetching = [r \in Repo |-> IF @[r].from = p THEN NoFetch ELSE @[r]],
-                              !.sfetch[p] = {},
-                              !.queue[p] = IF p \in Persistent THEN @ ELSE <<>>,
-                              !.live = {g \in @ : tasks[g].peer # p}]
-         IN Set(Dequeue(s0, conn \ {p}, {q \in Peer : st'[q] # "none"}, order))
-    /\ Log(<<"disconnect", p>>)
-    /\ UNCHANGED <<routing, syncIn>>
+\* Service::disconnected(p, l).  Ignored without a session, or when l is not the session's recorded
+\* link.  Otherwise (whatever the session's state): fetching.retain(from # p); a persistent peer's
+\* session is kept in the Disconnected state (with its queue), any other session is dropped; the
+\* worker's tasks for p are not cancelled by the service; then dequeue_fetches.
+SvcDisconnected(p, l) ==
+    IF st[p] = "none" \/ link[p] # l
+    THEN UNCHANGED <<st, sfetch, queue, fetching, tasks, live, link>>
+    ELSE /\ st' = [st EXCEPT ![p] = IF p \in Persistent THEN "disconnected" ELSE "none"]
+         /\ link' = [link EXCEPT ![p] = IF p \in Persistent THEN @ ELSE "none"]
+         /\ \E order \in Perms(conn \ {p}) :
+              LET s0 == [St EXCEPT !.fetching = [r \in Repo |-> IF @[r].from = p THEN NoFetch ELSE @[r]],
+                                   !.sfetch[p] = {},
+                                   !.queue[p] = IF p \in Persistent THEN @ ELSE <<>>,
+                                   !.live = {g \in @ : tasks[g].peer # p}]
+              IN Set(Dequeue(s0, conn \ {p}, {q \in Peer : st'[q] # "none"}, order))
 
-\* disconnected() for a link that is not the session's link (the losing connection of a conflict is
-\* torn down): ignored by the service -- in particular its fetches stay
+\* the connection is lost: the wire reports it with its link
+Disconnect(p) ==
+    /\ wire[p] # "none"
+    /\ wire' = [wire EXCEPT ![p] = "none"]
+    /\ SvcDisconnected(p, wire[p])
+    /\ applied' = <<>>
+    /\ Log(<<"disconnect", p>>)
+    /\ UNCHANGED <<dial, routing, syncIn>>
+
+\* the losing connection of a conflict is torn down: a disconnection with the link that is NOT the
+\* live connection's
 StaleDisconnect(p) ==
-    /\ st[p] # "none"
+    /\ wire[p] # "none"
+    /\ SvcDisconnected(p, IF wire[p] = "in" THEN "out" ELSE "in")
     /\ applied' = <<>>
     /\ Log(<<"stale_disconnect", p>>)
-    /\ UNCHANGED <<st, sfetch, queue, fetching, tasks, live, routing, syncIn>>
+    /\ UNCHANGED <<wire, dial, routing, syncIn>>
+
+\* our dial fails (also: while the peer is connected inbound)
+DialFail(p) ==
+    /\ dial[p]
+    /\ dial' = [dial EXCEPT ![p] = FALSE]
+    /\ SvcDisconnected(p, "out")
+    /\ applied' = <<>>
+    /\ Log(<<"dialfail", p>>)
+    /\ UNCHANGED <<wire, routing, syncIn>>
 
 \* Command::Fetch (carries a result channel)
 FetchCmd(r, p) ==
@@ -172,19 +223,19 @@ FetchCmd(r, p) ==
     /\ Set(Fetch(St, conn, sessions, r, p, TRUE))
     /\ applied' = <<>>
     /\ Log(<<"fetch", r, p>>)
-    /\ UNCHANGED <<st, routing, syncIn>>
+    /\ UNCHANGED <<st, link, wire, dial, routing, syncIn>>
 
 \* an inventory announcement of connected peer p listing (only) the seeded repository r, which we do
 \* not have: the routing table is synchronised with the announced inventory -- p seeds r and
 \* nothing else -- and r is fetched from p (no result channel)
 AnnFetch(r, p) ==
     /\ Len(tasks) < MaxTasks
-    /\ p \in conn
+    /\ p \in conn /\ wire[p] # "none"
     /\ Set(Fetch(St, conn, sessions, r, p, FALSE))
     /\ routing' = IF SyncTask THEN {x \in routing : x[2] # p} \cup {<<r, p>>} ELSE routing
     /\ applied' = <<>>
     /\ Log(<<"annfetch", r, p>>)
-    /\ UNCHANGED <<st, syncIn>>
+    /\ UNCHANGED <<st, link, wire, dial, syncIn>>
 
 \* A worker finishes task g.  Wire::worker_result forwards the result to the service only if a
 \* peer with that node id is connected; Service::fetched then matches it by repository (and, since
@@ -196,7 +247,7 @@ TaskDone(g, ok) ==
     /\ LET r == tasks[g].repo
            p == tasks[g].peer
            t1 == [tasks EXCEPT ![g].st = "done"]
-           forwarded == p \in conn
+           forwarded == wire[p] # "none"      \* Wire::worker_result: a peer with that node id is connected
            entry == fetching[r]
            matches == /\ entry # NoFetch
                       /\ \/ entry.gid = g
@@ -217,7 +268,7 @@ TaskDone(g, ok) ==
             /\ live' = live \ {g}
             /\ UNCHANGED <<sfetch, queue, fetching, routing>>
     /\ Log(<<"done", g, IF ok THEN "ok" ELSE "err">>)
-    /\ UNCHANGED <<st, syncIn>>
+    /\ UNCHANGED <<st, link, wire, dial, syncIn>>
 
 \* fetch_missing_repositories: for every seeded repository (all of Repo) that is not in storage,
 \* fetch(r, p) for every connected seed p of r -- repositories in policy order, seeds in a shuffled
@@ -241,14 +292,16 @@ Wake ==
          ELSE Set(s1)
     /\ syncIn' = IF SyncTask THEN 1 - syncIn ELSE syncIn
     /\ st' = [p \in Peer |-> IF st[p] = "disconnected" THEN "initial" ELSE st[p]]
+    /\ dial' = [p \in Peer |-> dial[p] \/ st[p] = "disconnected"]        \* reconnect(): Io::Connect
     /\ applied' = <<>>
     /\ Log(<<"idle">>)
-    /\ UNCHANGED routing
+    /\ UNCHANGED <<link, wire, routing>>
 
 Done == \E g \in DOMAIN tasks, ok \in BOOLEAN : TaskDone(g, ok)
 
 Next ==
-    \/ \E p \in Peer : Attempt(p) \/ Connect(p) \/ Disconnect(p) \/ StaleDisconnect(p)
+    \/ \E p \in Peer : Attempt(p) \/ Disconnect(p) \/ StaleDisconnect(p) \/ DialFail(p)
+    \/ \E p \in Peer, d \in {"in", "out"} : Connect(p, d)
     \/ \E r \in Repo, p \in Peer : FetchCmd(r, p) \/ AnnFetch(r, p)
     \/ Done
     \/ Wake
@@ -280,6 +333,11 @@ C16_Capacity == \A p \in Peer : Cardinality(sfetch[p]) <= Capacity /\ Len(queue[
 C16_SessionConsistent ==
     /\ \A p \in Peer : \A r \in sfetch[p] : fetching[r] # NoFetch /\ fetching[r].from = p
     /\ \A r \in Repo : fetching[r] # NoFetch => r \in sfetch[fetching[r].from] /\ fetching[r].from \in conn
+\* Beyond C16 (the session life cycle): the service believes a peer connected exactly when a
+\* connection exists, and the session records that connection's link -- otherwise the loss of the
+\* connection is ignored and its fetches stay in the table for ever.
+SessionHasConnection == \A p \in Peer : (st[p] = "connected") <=> (wire[p] # "none")
+LinkRecorded == \A p \in Peer : wire[p] # "none" => link[p] = wire[p]
 \* A result is applied only to the fetch it belongs to.
 C16_Attribution == applied # <<>> => applied[1] = applied[2]
 =============================================================================
